@@ -4,6 +4,7 @@
 package main
 
 import (
+	sadns "github.com/bokysan/socketace/v2/internal/streams/dns"
 	"bytes"
 	"fmt"
 	"github.com/bokysan/socketace/v2/internal/client/listener"
@@ -317,6 +318,14 @@ func init() {
 		if len(a) > 4 {
 			stalled = int(a[4].I) // that many peers stall at the same point at the same time
 		}
+		var stale time.Duration
+		if len(a) > 5 && a[5].I > 0 {
+			// c15 dns <stall> <n> 0 <k> <ms>: the idle limit of tunnel sessions is lowered to 1 s and the scenario waits <ms> before the others arrive
+			stale = time.Duration(a[5].I) * time.Millisecond
+			ct, oct := sadns.ConnectionTimeout, sadns.OldConnectionTimeout
+			sadns.ConnectionTimeout, sadns.OldConnectionTimeout = time.Second, 6*time.Second
+			defer func() { sadns.ConnectionTimeout, sadns.OldConnectionTimeout = ct, oct }()
+		}
 		socketace.HandshakeTimeout = 30 * time.Second // the default; the stalled peer must not need it to run out
 		if expire {
 			// the variant in which the stalled peer's own handshake does run into its time limit before the others arrive
@@ -334,7 +343,34 @@ func init() {
 			if srv == "" {
 				return []Tok{TW("setup"), TW("no-raw-access")}
 			}
-			for sp := 0; sp < stalled; sp++ {
+			for sp := 0; sp < stalled && carrier == "dns"; sp++ {
+				// a tunnel peer of its own: completes the tunnel's negotiation (that opens a session on the endpoint), then stalls
+				ua, err := net.ResolveUDPAddr("udp", srv)
+				if err != nil {
+					return []Tok{TW("setup"), TW("stall-dial")}
+				}
+				comm, err := sadns.NewNetConnectionClientCommunicator(&sadns.ClientConfig{Servers: sadns.AddressList{ua}})
+				if err != nil {
+					return []Tok{TW("setup"), TW("stall-dial")}
+				}
+				dc, err := sadns.NewClientDnsConnection("example.org", comm)
+				if err != nil || dc.Handshake() != nil {
+					return []Tok{TW("setup"), TW("stall-handshake")}
+				}
+				defer dc.Close()
+				switch stall {
+				case "halfline":
+					dc.Write([]byte("X-SOCKETACE / HT"))
+				case "between":
+					dc.Write([]byte("X-SOCKETACE / HTTP/1.1\r\nAccepts-Protocol-Version: v2.0.0\r\n\r\n"))
+				case "garbage":
+					dc.Write([]byte{0, 1, 2, 3, 255, 254})
+				}
+				if stale > 0 {
+					comm.Close() // the peer vanishes without a word: no polling, no close request; its session stays behind
+				}
+			}
+			for sp := 0; sp < stalled && carrier != "dns"; sp++ {
 				var c net.Conn
 				if strings.HasPrefix(carrier, "kcp") {
 					c, err = kcp.DialWithOptions(srv, nil, 10, 3)
@@ -361,6 +397,10 @@ func init() {
 			time.Sleep(60 * time.Millisecond)
 			if expire {
 				time.Sleep(socketace.HandshakeTimeout + 800*time.Millisecond)
+			}
+			if stale > 0 {
+				// the stalled peers' sessions outlive the idle limit: whatever the endpoint does to retire them must not shut others out
+				time.Sleep(stale)
 			}
 		}
 		var out []Tok
